@@ -401,3 +401,102 @@ Proof.
     cbn in E. subst n. reflexivity.
   - destruct (Z.eqb_spec n 0) as [->|]; [discriminate E | reflexivity].
 Qed.
+
+(* ------------------------------------------------------------------------------------------------ *)
+(* C03: value-level error bound of CSNG on doubles: at most (1/2 + 1/256) ulp of the result's binade *)
+
+Theorem v_csng_error_bound d s : buf_ok Double_consts d -> v_csng true (VDbl d) = Ok (VSng s) ->
+  256 * Z.abs (value_scaled (VSng s) - value_scaled (VDbl d)) <= 129 * (2 ^ 32 * 2 ^ f_exp d).
+Proof.
+  intros Hd Hres.
+  pose proof (f_exp_bound Double_consts d Double_ok Hd) as Heb.
+  assert (HE : 0 < 2 ^ f_exp d) by (apply pow2_pos; lia).
+  destruct (Z.eq_dec (f_exp d) 0) as [E0|E0].
+  - unfold v_csng, v_to_single in Hres. rewrite (to_single_spec d Hd), E0 in Hres.
+    cbn in Hres. inversion Hres; subst s.
+    cbn [value_scaled]. rewrite (zero_encoding_value Double_consts d E0).
+    change (f_sval Single_consts [0; 0; 0; 0]) with 0. change (2 ^ 32) with 4294967296.
+    replace (0 * 4294967296 - 0) with 0 by lia. cbn [Z.abs]. nia.
+  - destruct (v_csng_double_spec true d Hd E0) as (Hvd & Hok & Hov). cbv zeta in Hvd, Hok, Hov.
+    pose proof (f_man_bound Double_consts d Double_ok) as HX. rewrite mbits_Double in HX. change (56 - 1) with 55 in HX.
+    destruct (narrow_rounding _ HX) as (Hhi & Hbr & Hr & _ & Hlo & Hup & Hband). cbv zeta in *.
+    set (X := f_man Double_consts d) in *. set (r := round_even8 (X / 2 ^ 24)) in *.
+    destruct (Z.eq_dec r (2 ^ 24)) as [Er|Er]; [destruct (Z.eq_dec (f_exp d) 255) as [E255|E255]|].
+    + rewrite (Hov (conj Er E255)) in Hres. discriminate.
+    + destruct (Hok ltac:(intros [_ H]; contradiction)) as (s' & Hs' & _ & Hvs).
+      rewrite Hs' in Hres. inversion Hres; subst s'. rewrite Hvs, Hvd. clear Hvs Hvd Hok Hov Hres.
+      assert (Hm : 256 * Z.abs (r * 2 ^ 32 - X) <= 129 * 2 ^ 32).
+      { change (2 ^ 32) with 4294967296 in *. change (2 ^ 31) with 2147483648 in *.
+        change (2 ^ 24) with 16777216 in *. set (hi := X / 4294967296) in *. set (rem := X mod 4294967296) in *.
+        assert (X = 4294967296 * hi + rem) by (unfold hi, rem; pose proof (Z.div_mod X 4294967296); lia).
+        assert (0 <= rem < 4294967296) by (unfold rem; apply Z.mod_pos_bound; lia).
+        destruct (Z.lt_ge_cases rem 2147483648) as [H1|H1]; [rewrite (Hlo H1); lia|].
+        destruct (Z.le_gt_cases (2147483648 + 16777216) rem) as [H2|H2]; [rewrite (Hup H2); lia|].
+        destruct Hr as [-> | ->]; lia. }
+      replace ((if f_neg Double_consts d then -1 else 1) * (r * 2 ^ 32) * 2 ^ f_exp d -
+               (if f_neg Double_consts d then -1 else 1) * X * 2 ^ f_exp d)
+        with ((if f_neg Double_consts d then -1 else 1) * ((r * 2 ^ 32 - X) * 2 ^ f_exp d)) by (destruct (f_neg Double_consts d); lia).
+      rewrite Z.abs_mul. replace (Z.abs (if f_neg Double_consts d then -1 else 1)) with 1 by (destruct (f_neg Double_consts d); reflexivity).
+      rewrite Z.mul_1_l, Z.abs_mul, (Z.abs_eq (2 ^ f_exp d)) by lia. nia.
+    + destruct (Hok ltac:(intros [H _]; contradiction)) as (s' & Hs' & _ & Hvs).
+      rewrite Hs' in Hres. inversion Hres; subst s'. rewrite Hvs, Hvd. clear Hvs Hvd Hok Hov Hres.
+      assert (Hm : 256 * Z.abs (r * 2 ^ 32 - X) <= 129 * 2 ^ 32).
+      { change (2 ^ 32) with 4294967296 in *. change (2 ^ 31) with 2147483648 in *.
+        change (2 ^ 24) with 16777216 in *. set (hi := X / 4294967296) in *. set (rem := X mod 4294967296) in *.
+        assert (X = 4294967296 * hi + rem) by (unfold hi, rem; pose proof (Z.div_mod X 4294967296); lia).
+        assert (0 <= rem < 4294967296) by (unfold rem; apply Z.mod_pos_bound; lia).
+        destruct (Z.lt_ge_cases rem 2147483648) as [H1|H1]; [rewrite (Hlo H1); lia|].
+        destruct (Z.le_gt_cases (2147483648 + 16777216) rem) as [H2|H2]; [rewrite (Hup H2); lia|].
+        destruct Hr as [-> | ->]; lia. }
+      replace ((if f_neg Double_consts d then -1 else 1) * (r * 2 ^ 32) * 2 ^ f_exp d -
+               (if f_neg Double_consts d then -1 else 1) * X * 2 ^ f_exp d)
+        with ((if f_neg Double_consts d then -1 else 1) * ((r * 2 ^ 32 - X) * 2 ^ f_exp d)) by (destruct (f_neg Double_consts d); lia).
+      rewrite Z.abs_mul. replace (Z.abs (if f_neg Double_consts d then -1 else 1)) with 1 by (destruct (f_neg Double_consts d); reflexivity).
+      rewrite Z.mul_1_l, Z.abs_mul, (Z.abs_eq (2 ^ f_exp d)) by lia. nia.
+Qed.
+
+(* ------------------------------------------------------------------------------------------------ *)
+(* C03: CSNG (CDBL s) gives back the bytes of s, for every single s (zero encodings: canonical zero) *)
+
+Lemma raw_of_fields C b : fmt_ok C -> buf_ok C b ->
+  f_raw b = f_man C b - 2 ^ (mbits C - 1) + (if f_neg C b then 2 ^ (mbits C - 1) else 0).
+Proof.
+  intros HC Hb. pose proof (mbits_ge C HC). pose proof (f_raw_bound C b HC Hb) as Hr.
+  rewrite (pow2_pred (mbits C)) in Hr by lia. unfold f_man, f_neg.
+  set (P := 2 ^ (mbits C - 1)) in *. assert (0 < P) by (apply pow2_pos; lia).
+  destruct (Z.leb_spec P (f_raw b)).
+  - rewrite mod_hi by lia. lia.
+  - rewrite Z.mod_small by lia. lia.
+Qed.
+
+Lemma f_encode_self C b : fmt_ok C -> buf_ok C b -> f_encode C (f_neg C b) (f_exp b) (f_man C b) = b.
+Proof.
+  intros HC Hb. pose proof (f_exp_bound C b HC Hb) as He. pose proof (f_man_bound C b HC) as Hm.
+  assert (Hok : buf_ok C (f_encode C (f_neg C b) (f_exp b) (f_man C b))) by (apply f_encode_ok; assumption).
+  destruct (f_encode_fields C (f_neg C b) (f_exp b) (f_man C b) HC He Hm) as (E1 & E2 & E3).
+  apply (f_raw_inj C); try assumption.
+  rewrite (raw_of_fields C _ HC Hok), (raw_of_fields C b HC Hb), E2, E3. reflexivity.
+Qed.
+
+Theorem csng_cdbl_roundtrip hard s : buf_ok Single_consts s ->
+  v_csng hard (VDbl (d_from_single s)) = Ok (VSng (if f_exp s =? 0 then [0; 0; 0; 0] else s)).
+Proof.
+  intros Hs. destruct (from_single_spec s Hs) as [Hd _].
+  unfold v_csng, v_to_single. rewrite (to_single_spec _ Hd).
+  rewrite (is_negative_spec Double_consts _ Double_ok Hd).
+  pose proof (f_encode_self Single_consts s Single_ok Hs) as Hself.
+  pose proof (f_exp_bound Single_consts s Single_ok Hs) as He.
+  pose proof (f_man_bound Single_consts s Single_ok) as Hm. rewrite mbits_Single in Hm. change (24 - 1) with 23 in Hm.
+  destruct (buf4 s Hs) as (s0 & s1 & s2 & s3 & -> & H0 & H1 & H2 & H3).
+  assert (Hz : byte_ok 0) by (unfold byte_ok; lia).
+  destruct (double_fields 0 0 0 0 s0 s1 s2 s3 Hz Hz Hz Hz H0 H1 H2 H3) as (Hfe & Hfn & Hfm). cbv zeta in Hfe, Hfn, Hfm.
+  unfold d_from_single. cbn [app]. rewrite Hfe, Hfn, Hfm.
+  destruct (Z.eqb_spec (f_exp [s0; s1; s2; s3]) 0); [reflexivity|].
+  set (m := f_man Single_consts [s0; s1; s2; s3]) in *.
+  replace ((2 ^ 32 * m + (0 + 256 * 0 + 65536 * 0 + 16777216 * 0)) / 2 ^ 24) with (256 * m).
+  2:{ change (2 ^ 32) with (4294967296). change (2 ^ 24) with 16777216. lia. }
+  unfold norm_result. rewrite round_even8_exact, mbits_Single.
+  destruct (Z.eqb_spec m (2 ^ 24)); [lia|].
+  destruct (Z.gtb_spec (f_exp [s0; s1; s2; s3]) 255); [lia|].
+  cbn [float_safe rmap bind]. rewrite Hself. reflexivity.
+Qed.
